@@ -119,16 +119,14 @@ def cases_of(shard, tier):
 
 
 def known_class(n, mask, kinds):
-    """narrow input class of the recorded finding: a chain of >= 3 non-task list nodes (each with > 1 dependency, each depending on
-    the previous one) together with a literal node that has >= 2 dependents"""
+    """narrow input class of the recorded finding (all 567 failing 6-node (graph, kinds) pairs fall into it): >= 3 non-task list nodes
+    with > 1 dependency, at least one of them built over another one, and a literal node shared by >= 2 of them"""
     deps = deps_of(n, mask)
     big = [i for i in range(n) if kinds[i] == "l" and len(deps[i]) > 1]
-    chain = {}
-    for i in big:
-        chain[i] = 1 + max([chain[j] for j in deps[i] if j in chain] or [0])
-    shared_lit = any(kinds[i] == "d" and sum(1 for k in range(n) if i in deps[k]) >= 2 for i in range(n))
-    if chain and max(chain.values()) >= 3 and shared_lit:
-        return ":list-chain>=3+shared-literal"
+    stacked = any(j in big for i in big for j in deps[i])
+    shared_lit = any(kinds[i] == "d" and sum(1 for k in big if i in deps[k]) >= 2 for i in range(n))
+    if len(big) >= 3 and stacked and shared_lit:
+        return ":>=3-list-nodes+stacked+shared-literal"
     return ""
 
 
